@@ -1,7 +1,109 @@
 import TTV.Sexp
-/-! Driver glue for C13 — stub, replaced when the property's model is built. -/
-namespace TTV.Drv.C13
-open TTV
+import TTV.Model.ConcSuite
+import TTV.Spec.C13
+import TTV.Drv.C12
+/-! Driver glue for C13: codecs between S-expressions and `Conc.SInput` / `Conc.STrace`.
 
-def handle (_ : List Sexp) : Sexp := .atom "unimplemented"
+input  = `(flavour workers mkRaise intr mfaults tb sched)`, flavour = `suite`|`stream`,
+         worker = `(tests boom faults)`, test = `(kind (tag…))`, mkRaise/intr = `none`|`(some n)`
+trace  = `(log sink result spawned joined live runs flags died finished)`
+         sink entry = `((w id kind) hasTimestamp raised)`, kind = `(st <status>)` | `(file T|F)`,
+         result = `none` | `returned` | `(raised interrupt|makeTests|injected)`; `log` as in C12 -/
+namespace TTV.Drv.C13
+open TTV TTV.Sexp TTV.Conc TTV.Drv.C12
+
+def flavour? : Sexp → Option Flavour
+  | .atom "suite" => some .suite | .atom "stream" => some .stream | _ => none
+
+def wtest? : Sexp → Option WTest
+  | .list [k, tags] => do some { kind := ← kind? k, tags := ← list? nat? tags }
+  | _ => none
+
+def worker? : Sexp → Option Worker
+  | .list [ts, b, f] => do some { tests := ← list? wtest? ts, boom := ← bool? b, faults := ← list? nat? f }
+  | _ => none
+
+def input? : Sexp → Option SInput
+  | .list [fl, ws, mk, intr, mf, tb, sched] => do
+      some { flavour := ← flavour? fl, workers := ← list? worker? ws, mkRaise := ← opt? nat? mk, intr := ← opt? nat? intr,
+             mfaults := ← list? nat? mf, tb := ← nat? tb, sched := ← list? nat? sched }
+  | _ => none
+
+def status? : Sexp → Option Status
+  | .atom "inprogress" => some .inprogress | .atom "success" => some .success | .atom "fail" => some .fail
+  | .atom "skip" => some .skip | .atom "xfail" => some .xfail | .atom "uxsuccess" => some .uxsuccess | _ => none
+def ofStatus : Status → Sexp
+  | .inprogress => .atom "inprogress" | .success => .atom "success" | .fail => .atom "fail"
+  | .skip => .atom "skip" | .xfail => .atom "xfail" | .uxsuccess => .atom "uxsuccess"
+
+def skind? : Sexp → Option SKind
+  | .list [.atom "st", s] => (status? s).map .st
+  | .list [.atom "file", b] => (bool? b).map .file
+  | _ => none
+def ofSkind : SKind → Sexp
+  | .st s => tag "st" [ofStatus s]
+  | .file b => tag "file" [ofBool b]
+
+def sev? : Sexp → Option SEv
+  | .list [w, i, k] => do some { w := ← nat? w, id := ← tid? i, kind := ← skind? k }
+  | _ => none
+def ofSev (e : SEv) : Sexp := .list [ofNat e.w, ofTid e.id, ofSkind e.kind]
+
+def cause? : Sexp → Option Cause
+  | .atom "interrupt" => some .interrupt | .atom "makeTests" => some .makeTests | .atom "injected" => some .injected | _ => none
+def ofCause : Cause → Sexp
+  | .interrupt => .atom "interrupt" | .makeTests => .atom "makeTests" | .injected => .atom "injected"
+
+def result? : Sexp → Option (Option MainRes)
+  | .atom "none" => some none
+  | .atom "returned" => some (some .returned)
+  | .list [.atom "raised", c] => (cause? c).map fun c => some (.raised c)
+  | _ => none
+def ofResult : Option MainRes → Sexp
+  | none => .atom "none"
+  | some .returned => .atom "returned"
+  | some (.raised c) => tag "raised" [ofCause c]
+
+def sinkEntry? : Sexp → Option (SEv × Bool × Bool)
+  | .list [e, ts, r] => do some (← sev? e, ← bool? ts, ← bool? r)
+  | _ => none
+def ofSinkEntry (p : SEv × Bool × Bool) : Sexp := .list [ofSev p.1, ofBool p.2.1, ofBool p.2.2]
+
+def trace? : Sexp → Option STrace
+  | .list [log, sink, res, sp, jo, live, runs, flags, died, fin] => do
+      some { log := ← list? ev? log, sink := ← list? sinkEntry? sink, result := ← result? res,
+             spawned := ← list? nat? sp, joined := ← list? nat? jo, liveAtReturn := ← list? nat? live,
+             runs := ← list? nat? runs, flags := ← list? bool? flags, died := ← list? bool? died, finished := ← bool? fin }
+  | _ => none
+def ofTrace (t : STrace) : Sexp :=
+  .list [ofList ofEv t.log, ofList ofSinkEntry t.sink, ofResult t.result, ofList ofNat t.spawned, ofList ofNat t.joined,
+         ofList ofNat t.liveAtReturn, ofList ofNat t.runs, ofList ofBool t.flags, ofList ofBool t.died, ofBool t.finished]
+
+/-- known finding: in the stream flavour a worker that is told to stop before it has forwarded its
+`startTestRun` clears the request (`ExtendedToStreamDecorator.startTestRun` assigns `shouldStop = False`) -/
+def classes (i : SInput) : List String :=
+  if (finalC i).late.isEmpty then [] else ["lostStop"]
+
+def drv : PropDrv SInput STrace :=
+  { decI := input?, decT := trace?, encT := ofTrace, model := modelC, clauses := Spec.C13.clauses, classes := classes }
+
+/-- As `PropDrv.handle`, except for the third component (spec on the MODEL's own trace): on an input of
+the finding class `lostStop` the model exhibits the defect faithfully, so its trace fails the `abort`
+clause as well; that clause is excused there (the headline theorem is `holds_model_partial`: outside the
+class every clause holds, inside it every clause but `abort`).  harness/check.py treats any spec failure on
+the model trace as an infrastructure error, hence the filter. -/
+def handle : List Sexp → Sexp
+  | [inp, impl] =>
+    match input? inp with
+    | none => .atom "bad-input"
+    | some i =>
+      let m := modelC i
+      let cls := classes i
+      let enc (fs : List String) : Sexp := if fs.isEmpty then .atom "ok" else Sexp.tag "fail" (fs.map .atom)
+      let si := match trace? impl with
+        | none => Sexp.tag "fail" [.atom "undecodable-trace"]
+        | some t => enc (drv.failed i t)
+      let sm := (drv.failed i m).filter fun c => !(cls.contains "lostStop" && c == "abort")
+      .list [ofTrace m, si, enc sm, .list (cls.map .atom)]
+  | args => drv.handle args
 end TTV.Drv.C13
